@@ -1,3 +1,4 @@
+pub mod c03;
 pub mod c05;
 
 #[derive(Clone, Copy, PartialEq, Eq, Debug)]
@@ -30,6 +31,7 @@ impl Tier {
 
 pub fn run(prop: &str, tier: Tier, seed: u64, out: &str) -> bool {
     match prop {
+        "C03" => c03::run(tier, seed, out),
         "C05" => c05::run(tier, seed, out),
         _ => return false,
     }
